@@ -39,6 +39,25 @@ Theorem C02_no_lost_write : forall a b, ole a (join a b) /\ ole b (join a b).
 Proof. exact join_covers. Qed.
 Print Assumptions C02_no_lost_write.
 
+
+(* nothing either instance holds is ever reverted by the writes of a catch-up pass (or of anybody
+   else): whatever acknowledged requests follow, the point read for an identity of a node or of an
+   edge is never replaced by an older one.  (The catch-up model of Sync/Model.v acts on the two
+   stores only through such requests.) *)
+Theorem C02_no_revert_node :
+  forall st ops1 ops2 id t k, nodes_ok st ->
+    ole (lookup (node_rows (s_nodes (run st ops1)) id) t k)
+        (lookup (node_rows (s_nodes (run st (ops1 ++ ops2))) id) t k).
+Proof. exact monotone_reads. Qed.
+Print Assumptions C02_no_revert_node.
+
+Theorem C02_no_revert_edge :
+  forall st ops1 ops2 par id t k, wf st -> Inv st -> edges_ok st -> Forall op_ok ops1 -> Forall op_ok ops2 ->
+    ole (lookup (edge_rows (run st ops1) par id) t k)
+        (lookup (edge_rows (run st (ops1 ++ ops2)) par id) t k).
+Proof. exact monotone_reads_edge. Qed.
+Print Assumptions C02_no_revert_edge.
+
 (* non-vacuity and the known history: child c of the device deleted upstream during an outage.
    The catch-up of the repaired code converges (both sides hold the tombstone); the catch-up as
    it was (children listed without deleted ones, undelete branch for every node) does not. *)
